@@ -27,6 +27,7 @@ CONSTANTS
                 \* (0 = may replace every block above it, i.e. the common ancestor is the
                 \* birthday block itself: the history of finding F6)
     MaxBlocks,  \* bound on block identifiers ever created
+    Acts,       \* optional actions explored by this configuration (e.g. {"StartDuringReorg"})
     MaxHist,
     FullHist
 
@@ -88,6 +89,8 @@ W == [chain |-> wchain, conf |-> wconf]
 SetW(w) == wchain' = w.chain /\ wconf' = w.conf
 
 ----------------------------------------------------------------------------
+On(x) == x \in Acts
+
 Obs == [ running |-> running,
          tip |-> Tip, chain |-> chain, wchain |-> wchain,
          wconf |-> wconf, conf |-> conf, sent |-> sent ]
@@ -194,7 +197,30 @@ Start ==
     /\ UNCHANGED <<bvars, lastDisc>>
     /\ Step("Start", <<>>)
 
+(* The wallet is started and, while its initial rescan is still running       *)
+(* (block notifications are subscribed, RescanFinished not yet processed),    *)
+(* the backend reorganises: the disconnect / connect notifications reach the   *)
+(* wallet between the rescan's results and RescanFinished.  Whatever the       *)
+(* order, once everything is processed the wallet has to follow the backend.   *)
+StartDuringReorg(d, n, S) ==
+    /\ ~running /\ running' = TRUE
+    /\ d \in 1..MaxDepth /\ d <= Tip - MinKeep /\ n \in {d, d + 1}
+    /\ Tip - d + n <= MaxLen /\ nextId + n - 1 <= MaxBlocks
+    /\ LET base == Tip - d
+           back == {t \in Txs : conf[t] > base}
+           mem  == Mempool \cup back
+           w0   == OnStart(W, chain, conf)          \* rollback + rescan against the old chain
+       IN  /\ S \subseteq mem
+           /\ chain' = SubSeq(chain, 1, base) \o [i \in 1..n |-> nextId + i - 1]
+           /\ nextId' = nextId + n
+           /\ conf' = [t \in Txs |-> IF t \in S THEN base + 1 ELSE IF t \in back THEN 0 ELSE conf[t]]
+           /\ lastDisc' = <<base + 1, chain[base + 1]>>
+           /\ SetW(Connects(Disconnects(w0, chain, d), base + 1, nextId, n, S))
+    /\ UNCHANGED sent
+    /\ Step("StartDuringReorg", [d |-> d, n |-> n, txs |-> S])
+
 Next ==
+    \/ On("StartDuringReorg") /\ \E d \in 1..MaxDepth, n \in 1..(MaxDepth+1), S \in SUBSET Txs : StartDuringReorg(d, n, S)
     \/ \E t \in Txs : Receive(t)
     \/ \E S \in SUBSET Txs : Extend(S)
     \/ \E d \in 1..MaxDepth, n \in 1..(MaxDepth+1), S \in SUBSET Txs : Reorg(d, n, S)
